@@ -625,7 +625,8 @@ def run(ctx):
         cnt, classes, fails = _unit((c, "add", 3, drv.LIFTS3))
         _T[c] = keep
         ctx.selftest("replay_rejects_corrupted_expectation", any(k.startswith("C02|add|") for k, _, _ in fails))
-    ctx.exhaustive = True
+    ctx.exhaustive = False
+    ctx.extra["exhaustive_within"] = "every point / pair / triple / table entry of the toy curves named in tlc_runs; sampled on 256-bit and 381-bit curves (L1)"
 
 
 def _production(ctx, behs, nregs):
